@@ -588,3 +588,59 @@ func inGroupOf(r *an.Run, rel, spec string, g *ssa.Function) bool {
 	f := r.P.Func(rel, spec)
 	return f != nil && inGroup(f, g)
 }
+
+// preciseSlice is a backward data slice that descends into same-module
+// callees instead of assuming that a result depends on every argument: the
+// result of a module function depends on what its returns depend on, and a
+// parameter met there stands for the argument of that very call. External
+// calls depend on all their arguments.
+func preciseSlice(v ssa.Value) map[ssa.Value]bool {
+	out := map[ssa.Value]bool{}
+	type frame struct {
+		call   *ssa.Call
+		parent *frame
+	}
+	var visit func(x ssa.Value, fr *frame, depth int)
+	visit = func(x ssa.Value, fr *frame, depth int) {
+		if x == nil {
+			return
+		}
+		for y := range an.BackSlice(x, an.SliceOpts{ThroughCalls: false, ThroughMemory: true}) {
+			switch t := y.(type) {
+			case *ssa.Call:
+				if out[y] {
+					continue
+				}
+				out[y] = true
+				h := an.StaticCallee(t)
+				if h != nil && an.InModule(h) && h.Blocks != nil && depth < 4 {
+					for _, ret := range an.Returns(h) {
+						for _, res := range ret.Results {
+							visit(res, &frame{t, fr}, depth+1)
+						}
+					}
+					continue
+				}
+				for _, a := range an.CallArgs(t) {
+					visit(a, fr, depth)
+				}
+				if !t.Call.IsInvoke() {
+					visit(t.Call.Value, fr, depth)
+				}
+			case *ssa.Parameter:
+				out[y] = true
+				if fr != nil && t.Parent() == an.StaticCallee(fr.call) {
+					for i, p := range t.Parent().Params {
+						if p == t && i < len(fr.call.Call.Args) {
+							visit(fr.call.Call.Args[i], fr.parent, depth)
+						}
+					}
+				}
+			default:
+				out[y] = true
+			}
+		}
+	}
+	visit(v, nil, 0)
+	return out
+}
